@@ -54,7 +54,13 @@ func conditioningMethodReturn(
 	for _, defineArgT := range defineArgTs {
 		if defineArgT.HasDefault() {
 			variants := methodT.GetVariants()
-			return &variants[len(removeBlockTypeArgs(evaluatedArgs))]
+
+			idx := len(removeBlockTypeArgs(evaluatedArgs))
+			if idx >= len(variants) {
+				return methodT
+			}
+
+			return &variants[idx]
 		}
 
 		if defineArgT.IsUnionType() {
@@ -64,6 +70,10 @@ func conditioningMethodReturn(
 
 					if variant.GetType() == argT.GetType() || (isAny) {
 						variants := methodT.GetVariants()
+						if idx >= len(variants) {
+							return methodT
+						}
+
 						return &variants[idx]
 					}
 				}
@@ -77,6 +87,10 @@ func conditioningMethodReturn(
 
 			if defineArgT.GetType() == argT.GetType() || (isAny) {
 				variants := methodT.GetVariants()
+				if idx >= len(variants) {
+					return methodT
+				}
+
 				return &variants[idx]
 			}
 		}
@@ -168,10 +182,13 @@ func calculateExecutionType(
 
 	case base.BLOCK_RESULT_ARRAY:
 		blockT := m.parser.GetLastEvaluatedT()
-		blockResultT := blockT.GetVal().(*base.T)
 
 		arrayT := base.MakeAnyArray()
-		arrayT.AppendArrayVariant(*blockResultT)
+
+		// no block was given: the element type stays open
+		if blockResultT, ok := blockT.GetVal().(*base.T); ok && blockResultT != nil {
+			arrayT.AppendArrayVariant(*blockResultT)
+		}
 
 		return arrayT
 
